@@ -29,8 +29,8 @@ ASSUMPTIONS = [
 ]
 TRUSTED = ["taskiq_dependencies 1.5.7 (executed)", "CPython asyncio (real, virtual clock)", "vt.sym explorer"]
 BOUNDS = {"concurrent executions": "2 (quick) / 2 and 3 (thorough) direct callbacks; 3 (quick) / 3 and 4 (thorough) messages through Receiver.listen with max_async_tasks 1 and 2", "dependency shapes": 6, "suspension points per execution": "<= 4"}
-REQUIRED_COVERS = ["typed_args", "interleaved_in_resolution", "nocache", "nested", "generator", "cached", "via_listen"]
-SHAPES = ("cached", "nocache_after_wait", "nested_nocache", "generator_nocache", "sync_nocache", "ctx_param_only", "equal_args_of_different_type")
+REQUIRED_COVERS = ["equal_labels", "typed_args", "interleaved_in_resolution", "nocache", "nested", "generator", "cached", "via_listen"]
+SHAPES = ("cached", "nocache_after_wait", "nested_nocache", "generator_nocache", "sync_nocache", "ctx_param_only", "equal_args_of_different_type", "equal_labels_mutated")
 ARGS_BY_TYPE = [1, True, 1.0]
 
 
@@ -168,6 +168,13 @@ def harness(c: sym.Ctx, case: Dict[str, Any]) -> None:
                            ctx: Context = TaskiqDepends()) -> Any:
                 await wait("body")
                 return (i, rid if rid == rid0 else f"{rid0}|{rid}", ctx.message.task_id, dict(ctx.message.labels), list(ctx.message.args))
+        elif shape == "equal_labels_mutated":
+            c.cover("equal_labels")
+
+            async def task(i: int, ctx: Context = TaskiqDepends()) -> Any:  # type: ignore[misc]
+                ctx.message.labels["mark"] = i  # an execution annotates its own message (as Context.requeue does)
+                await wait("body")
+                return (i, ctx.message.task_id, ctx.message.task_id, dict(ctx.message.labels), list(ctx.message.args))
         elif shape == "equal_args_of_different_type":
             from typing import Union
 
@@ -186,7 +193,13 @@ def harness(c: sym.Ctx, case: Dict[str, Any]) -> None:
         recv = Receiver(broker, executor=InlineExecutor(), run_startup=False, max_async_tasks=case.get("A"))
         nmsg = case.get("n", 2)
         sent = [ARGS_BY_TYPE[i] if shape == "equal_args_of_different_type" else i for i in range(nmsg)]
-        msgs = [ackable(lab, i, encode(broker, "t", f"id{i}", [sent[i]], {"who": f"L{i}"}), False) for i in range(nmsg)]
+        if shape == "equal_labels_mutated":
+            # every message carries the same (typed) label set
+            msgs = [ackable(lab, i, encode(broker, "t", f"id{i}", [sent[i]], {"who": "same"}, labels_types={"who": 3}), False) for i in range(nmsg)]
+            want_labels = [{"who": "same", "mark": i} for i in range(nmsg)]
+        else:
+            msgs = [ackable(lab, i, encode(broker, "t", f"id{i}", [sent[i]], {"who": f"L{i}"}), False) for i in range(nmsg)]
+            want_labels = [{"who": f"L{i}"} for i in range(nmsg)]
 
         async def main() -> None:
             tasks = [asyncio.ensure_future(recv.callback(message=m, raise_err=False)) for m in msgs]
@@ -200,10 +213,10 @@ def harness(c: sym.Ctx, case: Dict[str, Any]) -> None:
     order = [e[0] for e in lab.ev if e[0] in ("slow_done",)]
     if len(order) >= 2 and lab.index("slow_done") < lab.index("set_result", "begin"):
         c.cover("interleaved_in_resolution")
-    check_results(c, lab, case.get("n", 2), shape, sent)
+    check_results(c, lab, case.get("n", 2), shape, sent, want_labels)
 
 
-def check_results(c: sym.Ctx, lab: Any, n: int, shape: str, sent: Any = None) -> None:
+def check_results(c: sym.Ctx, lab: Any, n: int, shape: str, sent: Any = None, want_labels: Any = None) -> None:
     stored = {e[2]: e[3] for e in lab.ev if e[:2] == ("set_result", "begin")}
     c.check(sorted(stored) == [f"id{i}" for i in range(n)], "one_result_per_task_id", stored=sorted(stored))
     for i in range(n):
@@ -217,9 +230,10 @@ def check_results(c: sym.Ctx, lab: Any, n: int, shape: str, sent: Any = None) ->
         want = sent[i] if sent is not None else i
         c.check(type(arg) is type(want) and arg == want and [type(a) for a in args] == [type(want)] and list(args) == [want],
                 "result_stored_under_the_id_of_the_message_that_produced_it", msg=i, arg=arg, args=args, want=want)
-        c.check(cid == f"id{i}" and labels == {"who": f"L{i}"}, "task_function_sees_its_own_context", msg=i, ctx_task_id=cid, labels=labels)
+        wl = want_labels[i] if want_labels is not None else {"who": f"L{i}"}
+        c.check(cid == f"id{i}" and labels == wl, "task_function_sees_its_own_context", msg=i, ctx_task_id=cid, labels=labels, want=wl)
         c.check(rid == f"id{i}", "dependency_sees_the_context_of_its_own_message", msg=i, dep_saw=rid, shape=shape)
-        c.check(res.labels == {"who": f"L{i}"}, "result_carries_own_labels", msg=i, labels=res.labels)
+        c.check(res.labels == wl, "result_carries_own_labels", msg=i, labels=res.labels, want=wl)
 
 
 HARNESSES = {"direct": harness, "listen": via_listen}
